@@ -40,6 +40,9 @@ mutual
       | 'N' =>
         let (n, r) := digits cs 0
         (parseList fuel r).map fun (l, r') => (.named n (listToTy l), r')
+      | 'K' =>
+        let (n, r) := digits cs 0
+        (parseList fuel r).map fun (l, r') => (.con n (listToTy l), r')
       | 'L' =>
         let (n, r) := digits cs 0
         (parseList fuel r).bind fun (l, r') => (parseList fuel r').map fun (nu, r'') => (.lnamed n (listToTy l) (listToTy nu), r'')
@@ -81,6 +84,7 @@ partial def showTy : Ty → String
   | .chan t => "C" ++ showTy t
   | .map k v => "M" ++ showTy k ++ showTy v
   | .named o a => s!"N{o}[" ++ ",".intercalate ((tyToList a).map showTy) ++ "]"
+  | .con g a => s!"K{g}[" ++ ",".intercalate ((tyToList a).map showTy) ++ "]"
   | .lnamed o a nu => s!"L{o}[" ++ ",".intercalate ((tyToList a).map showTy) ++ "][" ++ ",".intercalate ((tyToList nu).map showTy) ++ "]"
   | .tnil => "[]"
   | .tcons h t => "[" ++ ",".intercalate ((h :: tyToList t).map showTy) ++ "]"
